@@ -80,8 +80,9 @@ def run(ctx):
     want = {"q0": "q0", "q": "qmu", "qtilde": "qmu_tilde"}
     table = None
     for n in repo.walk_with_tables(gts):
-        if isinstance(n, ast.Dict) and n.keys and all(isinstance(A.const_value(k), str) for k in n.keys):
-            table = n
+        if isinstance(n, ast.Dict) and n.keys and all(k is not None and isinstance(A.const_value(k), str) for k in n.keys):
+            if table is None or ("q0" in [A.const_value(k) for k in n.keys] and "q0" not in [A.const_value(k) for k in table.keys]):
+                table = n  # the table that carries the documented names (an optional extension may add a second one)
     if table is None:
         ctx.unrecognised(r1, gts, "get_test_stat", "no literal name->function table")
     else:
